@@ -632,8 +632,14 @@ impl<W: Word, B: AsRef<[W]> + AsMut<[W]>> BitFieldSliceMut<W> for BitFieldVec<W,
             let residual =
                 bit_len - (W::BITS - dst_bit) - (dst_last_word - dst_first_word - 1) * W::BITS;
             let mask = W::MAX >> (W::BITS - residual);
+            // The last word of the destination gets the bits carried over from
+            // the previous word of the source and, if the source spans as many
+            // words as the destination, the low bits of its last word.
+            if src_last_word - src_first_word == dst_last_word - dst_first_word {
+                word |= source[src_last_word] << shift;
+            }
             dest[dst_last_word] &= !mask;
-            dest[dst_last_word] |= source[src_last_word] & mask;
+            dest[dst_last_word] |= word & mask;
         } else {
             // src_first_word != src_last_word && dst_first_word !=
             // dst_last_word && src_bit > dst_bit
